@@ -425,7 +425,9 @@ TREES = {
     "links": {"a": {"f": None, "up": ("link", "root"), "tob": ("link", "root/b")}, "b": {"g": None, "toa_f": ("link", "root/a/f")},
               "dangling": ("link", None), "lf": ("link", "root/b/g")},
     # names that are not valid UTF-8 (U+E080..U+E0FF stand for the raw bytes 0x80..0xFF, see harness os_name)
-    "bytes": {"a": {"caf\ue0e9.txt": None, "x\ue0ff": {"g.txt": None}}, "\ue080dir": {"f": None, "h.txt": None}, "f": None},
+    # ... and names with a backslash, which is an ordinary character of a name on this platform
+    "bytes": {"a": {"caf\ue0e9.txt": None, "x\ue0ff": {"g.txt": None}, "n\\d.txt": None, "p\\q": {"r.txt": None}},
+              "\ue080dir": {"f": None, "h.txt": None}, "f": None},
     # three levels of directories a, b with two-character files: the tree that the family walks of C02 use
     "ab3": {"a": {"a": {"a": None, "b": None, "ba": None}, "b": {"a": None, "b": None, "ba": None}, "ab": None},
             "b": {"a": {"a": None, "b": None, "ba": None}, "b": {"a": None, "b": None, "ba": None}, "ab": None}, "aa": None},
@@ -525,6 +527,11 @@ def glob_scenarios(tier, first_sid, rnd):
                 out.append({"nodes": nodes, "follow": False, "min": -1, "max": -1, "glob": C.cps(g), "rooted": True,
                             "walk_from": index["root"], "base": "abs", "layers": [], "tree": tname,
                             "desc": "rooted glob <abs>/%s over tree %s" % (g, tname)})
+        # rooted with a pattern as first component: the invariant prefix is the root alone, the walk starts at /
+        for g in (("**/*.txt", "a/**", "*", "a/b/*") if tname == "plain" else ("**/g", "a/b/**")):
+            out.append({"nodes": nodes, "follow": False, "min": -1, "max": -1, "glob": C.cps(g), "rooted": True, "rooted_variant": True,
+                        "walk_from": index["root"], "base": "abs", "layers": [], "tree": tname, "skip_trace": True,
+                        "desc": "rooted glob /?<abs>/%s over tree %s (first component a pattern)" % (g, tname)})
         # a base inside the tree, and prefixes with . and ..
         for g, base in (("**", "root/a"), ("*/*", "root/a"), ("b/**", "root/a"), ("./a/**", "root"), ("../root/a/**", "root"),
                         ("../b/**", "root/a"), ("a/../b/**", "root"), ("./**", "root"), ("../**", "root/a")):
